@@ -1231,7 +1231,7 @@ fn c05_async_server(case: &Case) {
         let writer = tokio::spawn(async move {
             for (i, len) in sz.iter().enumerate() {
                 let id = i as u64 + 1;
-                let f = Frame::new(id, if simkernel::choose(3) == 0 { &b"/custom/ownecho"[..] } else { &b"/custom/plain"[..] }, &pattern(id, *len));
+                let f = Frame::new(id, match simkernel::choose(6) { 0 | 1 => &b"/custom/ownecho"[..], 2 => &b"/custom/plainoff"[..], 3 => &b"/custom/pushy"[..], _ => &b"/custom/plain"[..] }, &pattern(id, *len));
                 if wr.write_all(&f.encode()).await.is_err() {
                     return wr;
                 }
